@@ -132,4 +132,12 @@ theorem C02_source_skeletons_2 :
     Gen.Skel.DB_resetDatabasePageChecksumsAfter = Expected.Skel.DB_resetDatabasePageChecksumsAfter :=
   ⟨rfl, rfl, rfl⟩
 
+/-- further regenerated control skeletons (fifth round of seeded changes: code no earlier change had
+    touched): RootNode_createJournal, JournalNode_Open, DatabaseHandle_Flush -/
+theorem C02_source_skeletons_5 :
+    Gen.Skel.RootNode_createJournal = Expected.Skel.RootNode_createJournal ∧
+    Gen.Skel.JournalNode_Open = Expected.Skel.JournalNode_Open ∧
+    Gen.Skel.DatabaseHandle_Flush = Expected.Skel.DatabaseHandle_Flush :=
+  ⟨rfl, rfl, rfl⟩
+
 end LiteFSVerif.C02
